@@ -593,7 +593,7 @@ Section Cfg.
      configuration.  Refused: nothing moves anywhere (the offered item stays where it was).  Taken: the code does not remove
      it from where it was, so one object is then reachable at two paths; the state says so (the same value, identity
      included, in both places), but later steps of this model treat the two as separate values -- the correspondence uses
-     this operation as the last step of a history only. *)
+     an offer that may be taken as the last step of a history only (after a refused one histories go on). *)
   | XFrom (r : objroute) (k : str) (from : list pstep).
 
   Fixpoint run_detached (dops : list (list pstep * cop)) (w : world) (c : cfg) (sdyn : bool) (svs : list N)
